@@ -18,6 +18,8 @@ import Hw.Topo.RenderOf
 import Hw.Topo.StageCompose
 import Hw.Topo.StageDecomp
 import Hw.Topo.StageTyping
+import Hw.Topo.StageSetsOK
+import Hw.Topo.StageRemoveEmptyKept
 namespace Hw.Props.C01
 open Hw.Topo
 
@@ -276,6 +278,12 @@ theorem C01_remove_empty_idempotent (t t' : Tree) (h : removeEmpty t = some t') 
 /-- … the root is removed ("Topology became empty", the load fails) only if its own set is empty -/
 theorem C01_remove_empty_root_removed (t : Tree) (h : removeEmpty t = none) : emptySet t.obj = true := removeEmpty_none t h
 
+/-- … it never removes an object whose own set is not empty (every PU with a non-empty cpuset, every NUMA node with a non-empty nodeset
+survives, wherever it is), and every survivor is an object of the input, unmodified (`objsNM` = the objects reachable through normal and
+memory children lists) -/
+theorem C01_remove_empty_keeps_nonempty (t t' : Tree) (h : removeEmpty t = some t') :
+    (∀ x ∈ objsNM t, emptySet x = false → x ∈ objsNM t') ∧ (∀ x ∈ objsNM t', x ∈ objsNM t) := removeEmpty_objs t t' h
+
 /-- **remove_empty preserves every clause that tolerates dropping empty children**: `Q o ns ms` speaks about an object and the OBJECTS
 of its normal and memory children; `Stable Q` = it survives when children whose set is empty are dropped from the two lists.  If `Q`
 holds at every visited object before, it does after (objects are never modified, survivors keep their order). -/
@@ -303,6 +311,23 @@ decoration is well-kinded (`DecoTyped`), then the tree handed to `remove_empty` 
 typing hypotheses of `C01_pipeline_compose` follow from the input -/
 theorem C01_pipeline_typing (i : In) (dc : Deco) (h : typedST i.root = true) (hdc : DecoTyped dc) :
     typedT (toTree dc (stage i).root) = true ∧ (toTree dc (stage i).root).obj.type = i.root.o.type := pipeline_typed i dc h hdc
+
+/-- **the set clauses that survive level merging**: SetsOK (`Restrict.okT`: set ⊆ complete set at every object, the complete sets of
+normal and memory children inside the parent's, no sets on I/O and Misc objects) holds for the tree handed to `remove_empty` when the
+decoration carries no sets (`DecoZero`), is preserved by `remove_empty` and by `hwloc_filter_levels_keep_structure` (C08,
+`ok_keepStructure`); so the FINAL tree is SetsOK and EVERY object of its rendered dump satisfies the WF clause `set-in-complete`.
+(The other set clauses — cpuset / nodeset inside the parent's, memory-child-shares-cpuset — cannot be carried through a merge from what the
+modelled stages establish: a memory child handed from a merged child to its parent shares the parent's cpuset only if parent and single
+child have equal cpusets, which is the clause cpuset-is-disjoint-union-of-children that the insertion, not these stages, provides.) -/
+theorem C01_pipeline_sets_through_merging (i : In) (dc : Deco) (filters : List Nat) (hdr : Hdr) (ex : RObj → Extra)
+    (hpre : PreSets i) (hz : DecoZero dc) (t1 : Tree) (h1 : removeEmpty (toTree dc (stage i).root) = some t1) :
+    okT t1 = true ∧ okT (keepStructure filters t1) = true ∧
+    ∀ o ∈ (render (keepStructure filters t1) hdr ex).objs,
+      objClause "set-in-complete" (render (keepStructure filters t1) hdr ex) (mkAux (render (keepStructure filters t1) hdr ex)) o = true := by
+  have h0 := okT_toTree dc hz _ (stage_post i hpre)
+  have ht1 := removeEmpty_ok _ t1 h1 h0
+  have ht2 := ok_keepStructure filters t1 ht1
+  exact ⟨ht1, ht2, fun o ho => render_set_in_complete _ ht2 hdr ex o ho⟩
 
 /-- **propagate_total_memory**: as long as the local memory of all NUMA nodes of the tree sums to less than 2^64, the value left in
 `total_memory` of every object the function visits is exactly the sum of the local memory of the NUMA nodes at or below that object
@@ -420,6 +445,10 @@ example : typedST exIn.root = true := by decide +kernel
 example : DecoTyped exDc := fun o => ⟨rfl, by unfold exDc; simp only; split <;> decide, Or.inr rfl⟩
 example : DecompT 0 (toTree exDc (stage exIn).root) :=
   decompT_toTree exDc _ 0 (stage_decomp exIn ((preSets_iff exIn).1 (by decide +kernel)))
+example : DecoZero exDc := fun o => ⟨fun x hx => by simp [exDc, objsL] at hx, fun x hx => by
+  unfold exDc at hx; simp only at hx; split at hx
+  · simp [exLeaf, objsL, objsT] at hx; subst hx; decide
+  · simp [objsL] at hx⟩
 /-- the whole pipeline on `exIn` with Package filtered KEEP_STRUCTURE (nothing to merge here) and 100 / 200 bytes on the two NUMA nodes:
 totals per object, no Group -/
 def exLoc (o : RObj) : Nat := if o.gp = 10 then 100 else if o.gp = 11 then 200 else 0
